@@ -942,3 +942,49 @@ impl RuntimeStackTrait<Val> for RuntimeStack {
         }
     }
 }
+
+#[cfg(feature = "verif")]
+impl Runtime {
+    /// Canonical dump of every field that can influence a future.
+    /// `rand` is excluded (reseeded from entropy on CLEAR).
+    pub fn verif_digest(&self) -> String {
+        let mut functions: Vec<String> = self
+            .functions
+            .iter()
+            .map(|(k, v)| format!("{}={:?}", k, v))
+            .collect();
+        functions.sort();
+        format!(
+            "listing={:?}|dirty={}|program={}|pc={}|tr={:?}|tron={}|entry={}|stack={:?}|vars={}|state={:?}|cont={:?}|cont_pc={}|col={}|fns={:?}",
+            self.listing,
+            self.dirty,
+            self.program.verif_dump(),
+            self.pc,
+            self.tr,
+            self.tron,
+            self.entry_address,
+            self.stack,
+            self.vars.verif_dump(),
+            self.state,
+            self.cont,
+            self.cont_pc,
+            self.print_col,
+            functions
+        )
+    }
+
+    /// Number of values on the runtime stack.
+    pub fn verif_stack_len(&self) -> usize {
+        self.stack.len()
+    }
+
+    /// True when the program counter is inside the stored program.
+    pub fn verif_in_program(&self) -> bool {
+        self.pc < self.entry_address
+    }
+
+    /// Number of stored (non-default) variable values.
+    pub fn verif_vars_len(&self) -> usize {
+        self.vars.verif_len()
+    }
+}
